@@ -392,3 +392,24 @@ def patch_dask_from_delayed():
 
     da.from_delayed = from_delayed
     _DASK_PATCHED = True
+
+
+def like(real, fn):
+    """a stand-in for `real`: the call is bound against the signature of the function it replaces (defaults applied) and `fn` receives the
+    arguments positionally in declaration order - so positional and keyword spellings of the same call reach the stand-in identically, and a
+    call the real function would reject (unknown keyword, missing argument) is rejected here too."""
+    import inspect
+
+    try:
+        sig = inspect.signature(real)
+    except (TypeError, ValueError):
+        return fn
+
+    def w(*a, **k):
+        b = sig.bind(*a, **k)
+        b.apply_defaults()
+        return fn(*b.args, **b.kwargs)
+
+    w.__name__ = getattr(real, "__name__", "stand_in")
+    w.__wrapped_stand_in__ = fn
+    return w
